@@ -41,6 +41,9 @@ let () =
   register "vt_remask" (function [p; q; g; h; c1; c2; r; tap; out] ->
       (tok_res tok_pair (remask (grp p q g) (z_of_hex h) (tap = "1") (z_of_hex c1, z_of_hex c2) (z_of_hex r)), out) | _ -> failwith "arity");
   register "vt_decshare" (function [p; c1; x; out] -> (tok_res hex_of_z (dec_share (grp p "0" "0") (z_of_hex c1) (z_of_hex x)), out) | _ -> failwith "arity");
+  register "vt_update" (function [p; d; dj; ok; out] ->
+      let (r, d') = dec_update (grp p "0" "0") (z_of_hex d) (z_of_hex dj, ok = "1") in
+      ((if r then "1," else "0,") ^ hex_of_z d', out) | _ -> failwith "arity");
   register "vt_final" (function [p; d; c2; out] -> (tok_res hex_of_z (dec_finalize (grp p "0" "0") (z_of_hex d) (z_of_hex c2)), out) | _ -> failwith "arity");
   register "vt_type" (function [p; q; g; w; m; out] ->
       (tok_res hex_of_z (type_of_message (grp p q g) (nat_of_int (int_of_string w)) (z_of_hex m)), out) | _ -> failwith "arity");
